@@ -85,8 +85,9 @@ CFG = {
                   "[C3 28]).",
     "level_note": "Trusts Lean kernel + bv_decide certificate checker (word/lane lemmas in Proof/Utf8*.lean), the rs2lean "
                   "translation of the word kernels cut from the source, the lane semantics of the AVX2 intrinsics "
-                  "(alignr/permute2x128 as 'previous N bytes'; hand-written lane expression of check_block, tied by "
-                  "the raw-kernel correspondence only), from_le/ne_bytes on a little-endian host, and the differential harness.",
+                  "(alignr/permute2x128 as 'previous N bytes', their source text pinned in Generated/C13.lean; the lane "
+                  "expression of check_block is regenerated from source by the lanes translator and proved equal to the model's, "
+                  "theorem lanes_generated_eq), from_le/ne_bytes on a little-endian host, and the differential harness.",
     "technique": "Lean 4 proof (automaton simulation + bv_decide lane/word lemmas); differential correspondence of scalar, "
                  "broadword, raw AVX2 kernel, simd wrapper and dispatcher vs the compiled model",
     "variants": [{"features": []}],
